@@ -33,91 +33,66 @@ def run(rep, prog, tier):
 
 
 def check_disqualified_arm(rep, prog):
-    fi = prog.method('pgpy.pgp', 'PGPKey', 'verify')
-    rep.saw(fn=fi)
+    """PGPKey.verify under each row of the truth table over the atoms {issue set truthy, predicate(issue set)}: the
+    disqualified row records the computed issue set of the pair and never reaches the key material; the other rows do."""
+    P = verdict.predicate(prog)
+    rows = [('no issues', False, False), ('advisory issues only', True, False), ('disqualifying issues', True, True)]
+    asked_all = []
+    for name, I, F in rows:
+        fi, outs, asked = verdict.run_verify(prog, I=I, F=F, V=None)
+        rep.saw(fn=fi)
+        rep.analysed['paths'] += len(outs)
+        crypto, recs, _ = verdict.collect(outs)
+        for a in asked:
+            if a not in asked_all:
+                asked_all.append(a)
+        if not F:
+            rep.check(bool(crypto), 'C17.4', 'PGPKey.verify', 'row %s: key material not asked' % name,
+                      'the failing arm must not run the crypto check; the other arm must', where=fi.where, scenario=name)
+            continue
+        if not recs:
+            rep.violation('C17.4', 'PGPKey.verify', 'no record on the disqualified arm',
+                          'a disqualified key produces no verdict record at all', where=fi.where)
+            continue
+        for call, s in recs:
+            a = verdict.record_args(prog, call)
+            w = '%s:%d' % (fi.module.relpath, call[3])
+            issues = a[3]
+            is_set = issues is not None and verdict.is_issue_set(issues)
+            rep.check(is_set and (a[0], a[2]) == verdict.loop_pair(fi, s) and issues in asked, 'C17.4', 'PGPKey.verify',
+                      'disqualified arm records %s' % (a,),
+                      'when the key is disqualified the record must carry the computed issue set of (sig, subj)', where=w,
+                      expected='add_sigsubj(sig, self, subj, <the issue set the predicate was asked of>)', found=a)
+            if is_set:
+                check_issue_set(rep, P, fi, issues, w, 'recorded on the disqualified arm')
+        rep.check(not crypto, 'C17.4', 'PGPKey.verify', 'crypto check on disqualified arm',
+                  'a disqualified key must not fall through to the cryptographic check and be recorded OK', where=fi.where,
+                  found=[c[1] for c, _ in crypto])
+    # the set the predicate decides on is the aggregated one
+    if not asked_all:
+        raise AnalysisError('PGPKey.verify never asks %s of an issue set' % verdict.PREDICATE)
+    for a in asked_all:
+        check_issue_set(rep, P, prog.method('pgpy.pgp', 'PGPKey', 'verify'), a, None, 'the verdict predicate is asked of')
 
-    def oracle(t):
-        if 'causes_signature_verify_to_fail' in t:
-            return True
-        if 'check_soundness' in t or 'check_primitives' in t:
-            return True    # the issue set is non-empty
-        return None
-    sc = Scenario(args={'subject': Sym('subject', types={'PGPUID'}, nonnull=True), 'signature': Const(None)},
-                  oracle=oracle, inline=lambda f: False, axioms={'(len(sspairs) == 0)': False, 'sspairs': True})
-    outs = Interp(prog, sc).run(fi)
-    rep.analysed['paths'] += len(outs)
-    recs = []
-    crypto = []
-    for s in outs:
-        for c in s.calls:
-            if c[0].endswith('.add_sigsubj') and c not in recs:
-                recs.append(c)
-            if c[0] == 'self._key.verify' and c not in crypto:
-                crypto.append(c)
-    if not recs:
-        rep.violation('C17.4', 'PGPKey.verify', 'no record on the disqualified arm',
-                      'a disqualified key produces no verdict record at all', where=fi.where)
-        return
-    for ft, args, kw, line, node in recs:
-        w = '%s:%d' % (fi.module.relpath, line)
-        issues = args[3] if len(args) > 3 else kw.get('issues')
-        ops = verdict.or_operands(issues or '')
-        has_sources = any('check_soundness' in o for o in ops) and any('check_primitives' in o for o in ops)
-        rep.check(issues is not None and has_sources and re.match(r'^\$\d+_0$', args[0]) and args[2] == args[0][:-1] + '1', 'C17.4', 'PGPKey.verify',
-                  'disqualified arm records %s' % (args,),
-                  'when the key is disqualified the record must carry the computed issue set of (sig, subj)', where=w,
-                  expected='add_sigsubj(sig, self, subj, <check_primitives | check_soundness>)', found=args)
-    rep.check(not crypto, 'C17.4', 'PGPKey.verify', 'crypto check on disqualified arm',
-              'a disqualified key must not fall through to the cryptographic check and be recorded OK', where=fi.where,
-              found=[c[1] for c in crypto])
-    # the branch condition itself: issues and issues.<predicate>
-    conds = [n for n in ast.walk(fi.node) if isinstance(n, ast.If) and 'causes_signature_verify_to_fail' in ast.unparse(n.test)]
-    if len(conds) != 1:
-        raise AnalysisError('PGPKey.verify: expected one branch on causes_signature_verify_to_fail, found %d' % len(conds))
-    t = conds[0].test
-    # polarity: predicate true -> record issues arm (the arm that does NOT call self._key.verify)
-    body_src = ' '.join(ast.unparse(x) for x in conds[0].body)
-    else_src = ' '.join(ast.unparse(x) for x in conds[0].orelse)
-    neg = False
-    core = t
-    if isinstance(core, ast.UnaryOp) and isinstance(core.op, ast.Not):
-        neg = True
-    fail_arm = else_src if neg else body_src
-    pass_arm = body_src if neg else else_src
-    rep.check('_key.verify(' not in fail_arm and '_key.verify(' in pass_arm, 'C17.4', 'PGPKey.verify',
-              'branch polarity on %s' % ast.unparse(t),
-              'the failing arm must not run the crypto check; the other arm must', where='%s:%d' % (fi.module.relpath, conds[0].lineno))
+
+def check_issue_set(rep, P, fi, text, where, what):
+    """C17.5: the issue set is the union of the key conditions (check_soundness) and the primitive conditions
+    (check_primitives); the only bit ever taken out is the advisory collision-resistance bit."""
+    src, const, problems, allbits = verdict.contributions(P, text)
+    w = where or fi.where
+    hf = P.mem.get('HashFunctionNotCollisionResistant', 0)
+    rep.check(not problems, 'C17.5', 'PGPKey.verify', 'issue set %s: %s' % (what, text),
+              'key issues and signature issues must be united with |', where=w, expected='<a> | <b>', found=text)
+    for k, label in (('soundness', 'check_soundness'), ('primitives', 'check_primitives')):
+        rep.check(k in src, 'C17.5', 'PGPKey.verify', 'issue set %s lacks %s: %s' % (what, label, text),
+                  'the key conditions must come from check_soundness and check_primitives', where=w, found=text)
+        if k in src:
+            lost = allbits & ~src[k]
+            rep.check(not (lost & ~hf), 'C17.5', 'PGPKey.verify', 'issue set %s drops %s of %s' % (what, P.name(lost), label),
+                      'only the advisory collision-resistance bit may be masked out', where=w, found=text)
 
 
 def check_aggregation(rep, prog):
-    fi = prog.method('pgpy.pgp', 'PGPKey', 'verify')
-    # issues = signature_issues | subkey_issues
-    found = False
-    for n in ast.walk(fi.node):
-        if isinstance(n, ast.Assign) and len(n.targets) == 1 and isinstance(n.targets[0], ast.Name) and n.targets[0].id == 'issues':
-            found = True
-            v = n.value
-            ok = isinstance(v, ast.BinOp) and isinstance(v.op, ast.BitOr)
-            names = sorted(x.id for x in ast.walk(v) if isinstance(x, ast.Name))
-            rep.check(ok and len(names) == 2, 'C17.5', 'PGPKey.verify', ast.unparse(n),
-                      'key issues and signature issues must be united with |', where='%s:%d' % (fi.module.relpath, n.lineno),
-                      expected='issues = <a> | <b>', found=ast.unparse(n))
-    if not found:
-        raise AnalysisError('PGPKey.verify no longer assigns `issues`')
-    # sources of the two operands
-    src = {}
-    for n in ast.walk(fi.node):
-        if isinstance(n, ast.Assign) and len(n.targets) == 1 and isinstance(n.targets[0], ast.Name):
-            src.setdefault(n.targets[0].id, []).append(ast.unparse(n.value))
-    rep.check(any('check_soundness' in s for s in src.get('subkey_issues', [])), 'C17.5', 'PGPKey.verify',
-              'subkey_issues = %s' % src.get('subkey_issues'), 'the key conditions must come from check_soundness', where=fi.where)
-    # the only bit ever removed is the collision-resistance advisory bit, and only when self-verifying
-    for n in ast.walk(fi.node):
-        if isinstance(n, ast.AugAssign) and isinstance(n.op, ast.BitAnd) and isinstance(n.target, ast.Name) and 'issues' in n.target.id:
-            t = ast.unparse(n.value).replace(' ', '')
-            rep.check(t == '~SecurityIssues.HashFunctionNotCollisionResistant', 'C17.5', 'PGPKey.verify', ast.unparse(n),
-                      'only the advisory collision-resistance bit may be masked out', where='%s:%d' % (fi.module.relpath, n.lineno),
-                      found=ast.unparse(n))
     # check_management: Expired iff is_expired; check_soundness unites management and primitives
     cm = prog.method('pgpy.pgp', 'PGPKey', 'check_management')
     for expired in (True, False):
@@ -140,15 +115,23 @@ def check_aggregation(rep, prog):
         rep.check(any('check_management' in o for o in ops) and any('check_primitives' in o for o in ops) and len(ops) == 2,
                   'C17.5', 'PGPKey.check_soundness', 'return %s' % render(s.ret),
                   'soundness must be the union of the management and primitive issues', where=cs.where, found=render(s.ret))
-    # is_expired compares expires_at with now using <= / <
+    # is_expired: no expiry time -> never expired; otherwise "expiry time is not after now" (decided on the returned values)
     ie = prog.method('pgpy.pgp', 'PGPKey', 'is_expired')
-    cmp_ok = False
-    for n in ast.walk(ie.node):
-        if isinstance(n, ast.Compare) and len(n.ops) == 1 and isinstance(n.ops[0], (ast.LtE, ast.Lt)) and \
-                'now' in ast.unparse(n.comparators[0]):
-            cmp_ok = True
-        if isinstance(n, ast.Compare) and len(n.ops) == 1 and isinstance(n.ops[0], (ast.GtE, ast.Gt)) and \
-                'now' in ast.unparse(n.left):
-            cmp_ok = True
-    rep.check(cmp_ok, 'C17.5', 'PGPKey.is_expired', 'comparison of expiry with now',
-              'a key is expired when its expiry time is not after now', where=ie.where)
+    NOW = r'[\w.]*\b(?:now|utcnow)\((?:[\w.]*)\)'
+    forms = [re.compile(r'^\(<expires> (<=|<) %s\)$' % NOW), re.compile(r'^\(%s (>=|>) <expires>\)$' % NOW),
+             re.compile(r'^not \(<expires> (>=|>) %s\)$' % NOW), re.compile(r'^not \(%s (<=|<) <expires>\)$' % NOW)]
+    for has_expiry in (False, True):
+        sc = Scenario(bind={'self.expires_at': Sym('<expires>', nonnull=True) if has_expiry else Const(None)}, inline=lambda f: False)
+        outs = [s for s in Interp(prog, sc).run(ie) if s.raised is None]
+        if not outs:
+            raise AnalysisError('PGPKey.is_expired has no returning path')
+        for s in outs:
+            rt = render(s.ret) if s.ret is not None else 'None'
+            if not has_expiry:
+                ok = isinstance(s.ret, Const) and s.ret.value is False
+                rep.check(ok, 'C17.5', 'PGPKey.is_expired', 'no expiry time -> %s' % rt,
+                          'a key without an expiry time is not expired', where=ie.where, expected='False', found=rt, scenario='expires_at is None')
+            else:
+                rep.check(any(rx.match(rt) for rx in forms), 'C17.5', 'PGPKey.is_expired', 'comparison of expiry with now: %s' % rt,
+                          'a key is expired when its expiry time is not after now', where=ie.where,
+                          expected='expires_at <= now', found=rt, scenario='expires_at set')
